@@ -2251,16 +2251,12 @@ class Measurement:
         if exponent == 0:
             return Measurement(measurand, 0)
 
-        # d(x**n)/dx = n * x**(n - 1)
+        # d(x**n)/dx = n * x**(n - 1), where x**0 is 1 for every x (a Decimal zero
+        # refuses to be raised to the power 0)
+        slope = 1 if exponent == 1 else _pow(self.measurand.magnitude, exponent - 1)
         uncertainty = math.sqrt(
             _pow(
-                _mul(
-                    exponent,
-                    _mul(
-                        _pow(self.measurand.magnitude, exponent - 1),
-                        self.uncertainty.magnitude,
-                    ),
-                ),
+                _mul(exponent, _mul(slope, self.uncertainty.magnitude)),
                 2,
             )
         )
